@@ -281,33 +281,40 @@ def run(pid, repo_root, quals, jobs=None, limit=None, seeds=None):
             "auto_error_sample": [f"{q} {d}: {det}" for q, d, v, det in errors[:10]]}, res
 
 
-def main(argv):
-    """python -m sa.selftest.automut <pid> [function quals...]   (default: the functions the check consults)"""
+def analyse(pid, repo_root, quals=None):
+    """single-edit mutation analysis of one property's check -> (summary dict, rows [(qual, desc, verdict, detail, triage)])"""
     import importlib
-    import json
-    from ..model import Repo
-    from ..report import Check
-    pid = argv[0]
-    repo_root = os.environ.get("VERIF_REPO", "/repo")
-    quals = argv[1:]
-    if not quals:
-        quals = list(importlib.import_module(f"sa.rules.{pid.lower()}").ANCHORS)
     mod = importlib.import_module(f"sa.rules.{pid.lower()}")
     triage = getattr(mod, "AUTOMUT_TRIAGE", [])
+    quals = quals or list(mod.ANCHORS)
     summary, res = run(pid, repo_root, quals, seeds=getattr(mod, "AUTOMUT_SEEDS", None))
+    rows = []
     explained = 0
     for q, d, v, det in res:
-        if v != "violation":
-            why = ""
-            if v == "ok":
-                for fre, dre, reason in triage:
-                    if re.search(fre, q) and re.search(dre, d):
-                        why = f"[triaged: {reason}]"
-                        explained += 1
-                        break
-            print(f"{v:9s} {q} {d} {det if v == 'error' else why}"[:260])
+        why = ""
+        if v == "ok":
+            for fre, dre, reason in triage:
+                if re.search(fre, q) and re.search(dre, d):
+                    why = reason
+                    explained += 1
+                    break
+        rows.append((q, d, v, det, why))
     summary["auto_survivors_triaged"] = explained
     summary["auto_survivors_untriaged"] = summary["auto_survivors"] - explained
+    summary["auto_untriaged_sample"] = [f"{q} {d}" for q, d, v, det, why in rows if v == "ok" and not why][:20]
+    summary.pop("auto_survivor_sample", None)
+    return summary, rows
+
+
+def main(argv):
+    """python -m sa.selftest.automut <pid> [function quals...]   (default: the functions the check consults)"""
+    import json
+    pid = argv[0]
+    repo_root = os.environ.get("VERIF_REPO", "/repo")
+    summary, rows = analyse(pid, repo_root, argv[1:] or None)
+    for q, d, v, det, why in rows:
+        if v != "violation":
+            print(f"{v:9s} {q} {d} {det if v == 'error' else (f'[triaged: {why}]' if why else '')}"[:260])
     print(json.dumps({k: v for k, v in summary.items() if not k.endswith("sample")}))
     return 0
 
